@@ -16,7 +16,7 @@ func init() { register("C16", c16) }
 const fedPkg = "plugin/federation"
 
 func c16(c *core.Ctx) {
-	c.Explain("C16 (federation event stream): decided statically — R1 an event whose id is already in the session's seen-set reaches no store mutation and no publish in eventStreamHandler, and every event is first checked against that set; R2 Hello: a clean start (unknown or different session id) replaces the session and wipes the peer's subscriptions, a resume keeps the session object (next id and seen-set) untouched; R3 initStream on clean start: clear the queue, then (under the local store lock) re-announce every local subscription with its share name, then retained messages, then position the read cursor, then open the stream, then open the queue; R4 the next expected id advances to ack+1 only after the ack was sent; R6 the event queue stamps consecutive ids, hands out every element it steps over (no element skipped between batches) and acknowledges cumulatively.")
+	c.Explain("C16 (federation event stream): decided statically — R1 an event whose id is already in the session's seen-set reaches no store mutation and no publish in eventStreamHandler, and every event is first checked against that set; R2 Hello: a clean start (unknown or different session id) replaces the session and wipes the peer's subscriptions, a resume keeps the session object (next id and seen-set) untouched; R3 initStream on clean start: clear the queue, then (under the local store lock) re-announce every local subscription with its share name, then retained messages, then position the read cursor, then open the stream, then open the queue; R4 the next expected id advances to ack+1 only after the ack was sent; R6 the event queue stamps consecutive ids, hands out every element it steps over (no element skipped between batches) and acknowledges cumulatively. Added in the second round: R7 a failed node's peer entry, subscriptions and session are removed under that node's name; R8 the local subscription set is keyed by GetFullTopicName() wherever it is filled.")
 	c.NotDecided("ordering / at-least-once / exactly-once across arbitrary stream faults (needs executions or a protocol model); concurrent emission order between hooks (noted by a reviewer: store update and queue append are not under one lock)")
 	p := c.P
 	fl := ssax.NewFlow()
